@@ -9,6 +9,11 @@ NAV_PROGS = ["f0", "l0", "c0:1", "f0 f1", "f0 s1", "l0 p1", "c0:2", "f0 l0", "l0
 
 class ConcBase(Property):
     needs_hooks = True
+    trusted_base = Property.trusted_base + [
+        "hooks under cfg(cstree_verif): instrumented RwLock / AtomicU32 / UnsafeCell (cstree/src/verif.rs) report the steps of the real "
+        "primitives they wrap; the deterministic scheduler and the trace renderer of harness/src/conc_cases.rs",
+        "Miri (nightly) as a second search for a failing run when an obligation breaks (never as evidence that the property holds)",
+    ]
     trees = TREES
     progs = NAV_PROGS
 
@@ -64,7 +69,10 @@ class C05(ConcBase):
                      "handles_denote_slots, slot_write_once (an initialised slot keeps its element until the teardown; a loser installs "
                      "nothing), block_identity (one NodeData block stands for one position; no child shares the root's block), "
                      "slot_kinds_correct (a slot holds a node exactly where the green tree has a node child; its parent position is the "
-                     "root or an initialised node slot)")
+                     "root or an initialised node slot), handles_carry_true_offsets (whoever won the race and by whichever route — first/"
+                     "last child, iterator, sibling hop in either direction — the offset stored with an element is the true text offset of "
+                     "its position), loser_neutral (the loser's four steps leave count, slots, offsets, locks, data and allocation counter "
+                     "as they were)")
     assumptions = [
         "the machine is at the granularity of the hook points (lock requests, read-modify-writes); between two hook points a thread's "
         "code touches only thread-private state or state protected by the lock it holds — the schedule correspondence replays every "
